@@ -1114,11 +1114,15 @@ class Engine:
                            % (list(out.columns)[:6], exp_cut[:6]), op="update_predict")
                     return
                 for j, c in enumerate(exp_cut):
-                    col = out.iloc[:, j].dropna().sort_index()
+                    col = out.iloc[:, j]
                     exp_idx = [c + s for s in cv_steps]
-                    if not C.same_index(list(col.index), exp_idx):
+                    # every requested label is present; no value sits at any other label (a
+                    # forecast may itself be NaN, e.g. outside Box-Cox's domain)
+                    missing = [t for t in exp_idx if t not in col.index]
+                    stray = [t for t in col.dropna().index if t not in exp_idx]
+                    if missing or stray:
                         self.v("update_predict_index", "update_predict column %s is labelled %s, "
-                               "expected %s" % (c, list(col.index)[:6], exp_idx[:6]),
+                               "expected %s" % (c, list(col.dropna().index)[:6], exp_idx[:6]),
                                op="update_predict")
                         return
         if len(outs) > 1:
